@@ -94,6 +94,10 @@ func (g *G) ExprOperandMatrix() Frag {
 		return cat(k("NOT"), g.fit(prim, lvNot))
 	case 4:
 		if prim.endsNum {
+			if g.flip("matrix.field-on-number.bare") {
+				// field access directly on an integer literal: white space before the dot is mandatory ("1 .x"; "1.x" is not a token sequence)
+				return cat(g.fit(prim, lvPostfix), p("."), g.safeField())
+			}
 			prim = paren(prim)
 		}
 		return cat(g.fit(prim, lvPostfix), pl("."), g.safeField())
@@ -242,6 +246,9 @@ func (g *G) expr() E {
 			return E{Frag: cat(g.fit(base, lvPostfix), pl("["), idx, pl("]")), Level: lvPostfix}
 		}
 		if base.endsNum && base.Level <= lvPostfix {
+			if g.flip("expr.field-on-number.bare") {
+				return E{Frag: cat(g.fit(base, lvPostfix), p("."), g.safeField()), Level: lvPostfix}
+			}
 			base = paren(base)
 		}
 		return E{Frag: cat(g.fit(base, lvPostfix), pl("."), g.safeField()), Level: lvPostfix}
